@@ -295,7 +295,8 @@ class Angle(AngularPosition):
         self,
         other: AngularPosition | Angle
     ) -> AngularPosition | Angle:
-        super().__add__(other=other)
+        if isinstance(other, Angle) or not isinstance(other, AngularPosition):
+            super().__add__(other=other)
 
         if isinstance(other, Angle):
             return Angle(
@@ -1689,7 +1690,8 @@ class TimeInterval(Time):
         self.__unit = unit
 
     def __add__(self, other: Time | TimeInterval) -> Time | TimeInterval:
-        super().__add__(other=other)
+        if isinstance(other, TimeInterval) or not isinstance(other, Time):
+            super().__add__(other=other)
 
         if isinstance(other, TimeInterval):
             return TimeInterval(
